@@ -48,7 +48,7 @@ Definition current_phase (P : mparams) (blk : Z) : phase * Z :=
 
 (* minter.go NextPhaseProvisions *)
 Definition next_phase_provisions (infl supply exclude : Z) (ph : phase) : Z :=
-  dec_mul (dec_mulint infl (supply - exclude)) (ph_coef ph).
+  dec_mul (dec_mulint infl (zmax0 (supply - exclude))) (ph_coef ph).
 
 (* minter.go BlockProvisions; None = Go panic (Quo by zero, sdk.NewCoin on a negative amount,
    or index out of range for a step outside 1..len(phases)) *)
@@ -82,7 +82,8 @@ Definition begin_block (P : mparams) (m : minter) (supply : Z) (height : Z) : bb
        end.
 
 (* params.go Params.Validate (mint denom omitted: a string check irrelevant to arithmetic) *)
-Definition phase_valid (p : phase) : bool := (0 <? ph_coef p) && negb (is_end_phase p).
+Definition phase_valid (p : phase) : bool := (0 <? ph_coef p) && negb (ph_infl p <? 0) && negb (is_end_phase p).
 Definition mparams_valid (P : mparams) : bool :=
   (0 <? bpy P) && negb (excl P <? 0) &&
-  negb (Nat.eqb (length (phases P)) 0) && forallb phase_valid (phases P).
+  negb (Nat.eqb (length (phases P)) 0) && forallb phase_valid (phases P) &&
+  forallb (fun ph => 0 <? phase_blocks_dec P ph) (phases P).
